@@ -97,6 +97,30 @@ NEEDED = {
  'C19-5': 'two-step draw-down: re-point the fee destination (12 signers x own / foreign group slot), then withdraw permissionlessly (C08 caught it as it stood)',
  'C19-6': 'funding sweep with Token-2022 reward mints that charge a transfer fee',
  'C14-4': 'extended pause scenario (pause, extend, propagate; probes up to the extended expiry)',
+ # round 5 (session 5)
+ 'C03-13': 'debt-free fraction-directed roots: a user that owes nothing and may take out its whole deposit, whose value ends just below a whole unit',
+ 'C03-14': '(caught by the sibling check C17: up-to-limit probe at and either side of the room under the limit; what the position is credited is at most what the user paid)',
+ 'C03-15': 'inflow clause: a position is credited at most what arrived in the liquidity vault (the transfer fee hides a one-unit shortfall from the wealth oracle)',
+ 'C05-13': 'collateral bank with a collateral-value cap far below its deposits',
+ 'C05-14': 'third collateral leg with a stale oracle: an acceptance although maintenance health cannot be established is a violation',
+ 'C06-13': "a third party's receivership bracket as a history action; position counters {0, 1, 7} in the accrual sweep",
+ 'C06-14': 'accrual sweep: interest due is applied whatever the position counters say',
+ 'C07-14': 'debt bank switched to reduce-only before the loss is settled, around the wipe-out threshold',
+ 'C08-13': '(caught by the sibling check C19)',
+ 'C08-14': '(caught by the sibling check C12)',
+ 'C08-15': 'C12: the risk admin may mark a wind-down complete only on a bank opened for token-less repayment',
+ 'C09-15': 'Switchboard flavours of the venue-backed oracle setups in the value sweep and the condition matrix',
+ 'C10-13': 'healthy accounts (standard and under $5) in the bracket grid',
+ 'C11-13': 'band enumeration: borrows and withdrawals either side of the initial and of the maintenance requirement inside brackets',
+ 'C12-15': 'the bracket grid driven by the risk admin as a forced deleverage (partial amounts and close-outs)',
+ 'C13-15': "e-mode entries naming the bank's own tag (valid, inverted, over-leveraged)",
+ 'C14-13': 'a killed bank (settings frozen or not, wind-down flags or not) under every one- and two-step operational-state request of the group admin',
+ 'C14-14': 'bank flag flavours in the state matrix (token-less wind-down allowed / completed, frozen, permissionless settlement, close enabled)',
+ 'C14-15': 'pause matrix signed by every identity for which the un-paused call succeeds (second entitled roles)',
+ 'C15-14': 'the global fee admin hands its role to a second key and back (pause / unpause signed by whoever holds the role); fee-settings edit as an action',
+ 'C15-15': 'pause counter of the model saturates instead of overflowing (the harness panicked - machinery exit - where it should have reported the fourth pause)',
+ 'C16-13': "liquidations with surplus observation accounts for the liquidator; roots F5 / F6 (liquidator holds only the collateral bank, both key orders)",
+ 'C17-13': 'withdraw amounts at the utilisation boundary and the whole vault; wound-down roots (borrow limit 0 / 1 with debt outstanding and a year of uncollected fees)',
 }
 BUILT_AFTER = {'C09', 'C10', 'C11', 'C19'}  # checks written after their seeds existed
 
